@@ -105,6 +105,181 @@ fn build(ty: &str, sh: &Value, seed: u64) -> (Box<dyn Wire>, u64) {
     }
 }
 
+/// Wrapper and composite keys (switching / automorphism / tensor / GGLWE-to-GGSW / LWE-related keys, their compressed forms,
+/// the public key, blind-rotation keys, circuit-bootstrapping and BDD key bundles), filled with seeded random data.  No grammar
+/// is known for them here: they are judged on grammar-free consequences of the contract (Wire.CompOK).
+fn build_comp(ty: &str, sh: &Value, seed: u64) -> Box<dyn Wire> {
+    use poulpy_bin_fhe::bdd_arithmetic::{BDDKey, BDDKeyLayout};
+    use poulpy_bin_fhe::blind_rotation::{BlindRotationKey, BlindRotationKeyCompressed, BlindRotationKeyLayout, CGGI};
+    use poulpy_bin_fhe::circuit_bootstrapping::{CircuitBootstrappingKey, CircuitBootstrappingKeyLayout};
+    use poulpy_core::layouts::compressed::*;
+    let deg = Degree(g(sh, "n", 8) as u32);
+    let b = Base2K(g(sh, "b", 4) as u32);
+    let k = TorusPrecision(g(sh, "k", 12) as u32);
+    let rank = Rank(g(sh, "rank", 1) as u32);
+    let dnum = Dnum(g(sh, "dnum", 2) as u32);
+    let dsize = Dsize(g(sh, "dsize", 1) as u32);
+    let nlwe = Degree(g(sh, "nlwe", 2) as u32);
+    let mut seedb = [0u8; 32];
+    Rng::new(seed).fill(&mut seedb);
+    let mut src = Source::new(seedb);
+    macro_rules! filled {
+        ($e:expr) => {{
+            let mut o = $e;
+            o.fill_uniform(10, &mut src);
+            Box::new(o) as Box<dyn Wire>
+        }};
+    }
+    let brk = BlindRotationKeyLayout { n_glwe: deg, n_lwe: nlwe, base2k: b, k, dnum, rank };
+    let atk = GLWEAutomorphismKeyLayout { n: deg, base2k: b, k, dnum, rank, dsize };
+    let tsk = GGLWEToGGSWKeyLayout { n: deg, base2k: b, k, dnum, dsize, rank };
+    let cbt = CircuitBootstrappingKeyLayout { brk_layout: brk, atk_layout: atk, tsk_layout: tsk };
+    // bundles and the public key have no fill routine: they are generated by the library's own key generation (FFT64Ref)
+    let keygen = |which: &str| -> Box<dyn Wire> {
+        use poulpy_bin_fhe::bdd_arithmetic::BDDEncryptionInfos;
+        use poulpy_bin_fhe::circuit_bootstrapping::CircuitBootstrappingEncryptionInfos;
+        use poulpy_core::api::*;
+        use poulpy_core::layouts::prepared::GLWESecretPrepared;
+        use poulpy_cpu_ref::FFT64Ref;
+        use poulpy_hal::api::*;
+        use poulpy_hal::layouts::{DeviceBuf, Module, NoiseInfos, ScratchOwned};
+        type BE = FFT64Ref;
+        let m: Module<BE> = Module::<BE>::new(deg.0 as u64);
+        let mut xs = Source::new(seedb);
+        let mut xe = Source::new([7u8; 32]);
+        let mut xa = Source::new([9u8; 32]);
+        let mut sk = GLWESecret::alloc(deg, rank);
+        sk.fill_ternary_prob(0.5, &mut xs);
+        let mut skl = LWESecret::alloc(nlwe);
+        skl.fill_binary_block(2, &mut xs);
+        let mut scratch = ScratchOwned::<BE>::alloc(1 << 20);
+        let ni = NoiseInfos::new(k.0 as usize, 3.2, 19.2).unwrap();
+        let enc = || CircuitBootstrappingEncryptionInfos { brk: NoiseInfos::new(k.0 as usize, 3.2, 19.2).unwrap(), atk: NoiseInfos::new(k.0 as usize, 3.2, 19.2).unwrap(), tsk: NoiseInfos::new(k.0 as usize, 3.2, 19.2).unwrap() };
+        match which {
+            "pk" => {
+                let mut skp: GLWESecretPrepared<DeviceBuf<BE>, BE> = m.glwe_secret_prepared_alloc(rank);
+                m.glwe_secret_prepare(&mut skp, &sk);
+                let mut o = GLWEPublicKey::alloc(deg, b, k, rank);
+                m.glwe_public_key_generate(&mut o, &skp, &ni, &mut xe, &mut xa);
+                Box::new(o)
+            }
+            "cbt" => {
+                let mut o: CircuitBootstrappingKey<Vec<u8>, CGGI> = CircuitBootstrappingKey::alloc_from_infos(&cbt);
+                o.encrypt_sk(&m, &skl, &sk, &enc(), &mut xe, &mut xa, scratch.borrow());
+                Box::new(o)
+            }
+            _ => {
+                // with an intermediate GLWE switch (rank -> 1) the LWE key starts from rank 1
+                let ks_lwe = GLWEToLWEKeyLayout { n: deg, base2k: b, k, rank_in: if g(sh, "ksglwe", 0) == 1 { Rank(1) } else { rank }, dnum };
+                let ks_glwe = if g(sh, "ksglwe", 0) == 1 { Some(GLWESwitchingKeyLayout { n: deg, base2k: b, k, rank_in: rank, rank_out: Rank(1), dnum, dsize }) } else { None };
+                let lay = BDDKeyLayout { cbt_layout: cbt, ks_glwe_layout: ks_glwe, ks_lwe_layout: ks_lwe };
+                let mut o: BDDKey<Vec<u8>, CGGI> = BDDKey::alloc_from_infos(&lay);
+                let infos = BDDEncryptionInfos { cbt: enc(), ks_glwe: ks_glwe.map(|_| NoiseInfos::new(k.0 as usize, 3.2, 19.2).unwrap()), ks_lwe: NoiseInfos::new(k.0 as usize, 3.2, 19.2).unwrap() };
+                o.encrypt_sk(&m, &skl, &sk, &infos, &mut xe, &mut xa, scratch.borrow());
+                Box::new(o)
+            }
+        }
+    };
+    match ty {
+        "GLWESwitchingKey" => filled!(GLWESwitchingKey::alloc(deg, b, k, rank, rank, dnum, dsize)),
+        "GLWEAutomorphismKey" => filled!(GLWEAutomorphismKey::alloc(deg, b, k, rank, dnum, dsize)),
+        "GLWETensorKey" => filled!(GLWETensorKey::alloc(deg, b, k, rank, dnum, dsize)),
+        "GGLWEToGGSWKey" => filled!(GGLWEToGGSWKey::alloc(deg, b, k, rank, dnum, dsize)),
+        "GLWEToLWEKey" => filled!(GLWEToLWEKey::alloc(deg, b, k, rank, dnum)),
+        "LWEToGLWEKey" => filled!(LWEToGLWEKey::alloc(deg, b, k, rank, dnum)),
+        "LWESwitchingKey" => filled!(LWESwitchingKey::alloc(deg, b, k, dnum)),
+        "GLWESwitchingKeyCompressed" => filled!(GLWESwitchingKeyCompressed::alloc(deg, b, k, rank, rank, dnum, dsize)),
+        "GLWEAutomorphismKeyCompressed" => filled!(GLWEAutomorphismKeyCompressed::alloc(deg, b, k, rank, dnum, dsize)),
+        "GLWETensorKeyCompressed" => filled!(GLWETensorKeyCompressed::alloc(deg, b, k, rank, dnum, dsize)),
+        "GGLWEToGGSWKeyCompressed" => filled!(GGLWEToGGSWKeyCompressed::alloc(deg, b, k, rank, dnum, dsize)),
+        "GLWEToLWESwitchingKeyCompressed" => filled!(GLWEToLWESwitchingKeyCompressed::alloc(deg, b, k, rank, dnum)),
+        "LWEToGLWEKeyCompressed" => filled!(LWEToGLWEKeyCompressed::alloc(deg, b, k, rank, dnum)),
+        "LWESwitchingKeyCompressed" => filled!(LWESwitchingKeyCompressed::alloc(deg, b, k, dnum)),
+        "BlindRotationKey" => filled!(BlindRotationKey::<Vec<u8>, CGGI>::alloc(&brk)),
+        "BlindRotationKeyCompressed" => filled!(BlindRotationKeyCompressed::<Vec<u8>, CGGI>::alloc(&brk)),
+        "GLWEPublicKey" => keygen("pk"),
+        "CircuitBootstrappingKey" => keygen("cbt"),
+        "BDDKey" => keygen("bdd"),
+        other => panic!("harness: unknown composite wire type {other}"),
+    }
+}
+
+/// One composite case: the clean stream into the receiver, EVERY truncation point, and every 8-byte word of the first 512
+/// bytes replaced by each value of the boundary dictionary.
+fn run_comp_case(c: &Value, seed: u64, dry: bool) -> Value {
+    let id = c.get("id").and_then(|v| v.as_u64()).unwrap_or(0);
+    let ty = c["type"].as_str().unwrap();
+    let src_obj = build_comp(ty, &c["sh"], seed ^ id);
+    let full = src_obj.ser().expect("serialising a fresh object");
+    let mut e = json!({"id": id, "kind": "comp", "type": ty, "sh": c["sh"], "rsh": c["rsh"], "rel": c["rel"], "flen": full.len()});
+    if dry {
+        e["clean"] = json!({"outcome": "abort", "roundtrip": false, "post_ok": false, "msg": "process aborted"});
+        e["cuts"] = json!({"total": 0, "err": 0, "bad": []});
+        e["muts"] = json!({"total": 0, "ok": 0, "err": 0, "bad": []});
+        return e;
+    }
+    // reads `stream` into a fresh receiver; returns (outcome, re-serialisation)
+    let attempt = |stream: &[u8]| -> (String, Option<Vec<u8>>, String) {
+        let mut rcv = build_comp(ty, &c["rsh"], seed ^ id ^ 0xABCDEF);
+        let r = guarded(|| rcv.de(stream));
+        let (outcome, msg) = match &r {
+            Ok(Ok(())) => ("ok".to_string(), String::new()),
+            Ok(Err(m)) => ("err".to_string(), m.chars().take(100).collect()),
+            Err(p) => ("panic".to_string(), p.chars().take(100).collect()),
+        };
+        let post = guarded(|| rcv.ser());
+        match post {
+            Ok(Ok(b)) => (outcome, Some(b), msg),
+            Ok(Err(m)) => (outcome, None, format!("{msg} / post: {m}")),
+            Err(p) => (outcome, None, format!("{msg} / post panic: {p}")),
+        }
+    };
+    let pre_len = build_comp(ty, &c["rsh"], seed ^ id ^ 0xABCDEF).ser().map(|b| b.len()).unwrap_or(0);
+    let (o, post, msg) = attempt(&full);
+    e["clean"] = json!({"outcome": o, "roundtrip": post.as_ref().map(|b| *b == full).unwrap_or(false), "post_ok": post.is_some(), "post_len": post.as_ref().map(|b| b.len()).unwrap_or(0), "msg": msg});
+    // every truncation point (a stride keeps the very large bundles affordable; all points below 1024 bytes and the last 64)
+    let stride = g(c, "stride", 1) as usize;
+    let (mut total, mut nerr, mut bad) = (0usize, 0usize, Vec::<Value>::new());
+    let same = c["rel"] == "same";
+    for p in 0..full.len() {
+        if !(p < 1024 || p + 64 >= full.len() || p % stride == 0) {
+            continue;
+        }
+        total += 1;
+        let (o, post, msg) = attempt(&full[..p]);
+        // a failed read leaves a receiver that still serialises, with its dimensions (stream length) unchanged when it had the sender's shape
+        let sane = post.as_ref().map(|b| !same || b.len() == pre_len).unwrap_or(false);
+        if o == "err" && sane {
+            nerr += 1;
+        } else if bad.len() < 4 {
+            bad.push(json!([p, o, sane, msg]));
+        }
+    }
+    e["cuts"] = json!({"total": total, "err": nerr, "bad": bad});
+    let dict: [u64; 7] = [0, 1, 1 << 31, 1 << 61, u64::MAX, 0, 0];
+    let (mut mt, mut mok, mut merr, mut mbad) = (0usize, 0usize, 0usize, Vec::<Value>::new());
+    for w in 0..(full.len().min(512) / 8) {
+        let cur = u64::from_le_bytes(full[w * 8..w * 8 + 8].try_into().unwrap());
+        for (di, dv) in dict.iter().enumerate() {
+            let v = match di { 5 => cur.wrapping_add(1), 6 => cur.wrapping_sub(1), _ => *dv };
+            if v == cur {
+                continue;
+            }
+            let mut s2 = full.clone();
+            s2[w * 8..w * 8 + 8].copy_from_slice(&v.to_le_bytes());
+            mt += 1;
+            let (o, post, msg) = attempt(&s2);
+            match (o.as_str(), post.is_some()) {
+                ("ok", true) => mok += 1,
+                ("err", true) => merr += 1,
+                _ => if mbad.len() < 4 { mbad.push(json!([w * 8, v.to_string(), o, msg])) },
+            }
+        }
+    }
+    e["muts"] = json!({"total": mt, "ok": mok, "err": merr, "bad": mbad});
+    e
+}
+
 const HDR: usize = 256;
 
 fn head(b: &[u8]) -> Vec<u8> {
@@ -112,6 +287,9 @@ fn head(b: &[u8]) -> Vec<u8> {
 }
 
 pub fn run_wire_case(c: &Value, seed: u64, dry: bool) -> Value {
+    if c.get("kind").and_then(|v| v.as_str()) == Some("comp") {
+        return run_comp_case(c, seed, dry);
+    }
     let id = c.get("id").and_then(|v| v.as_u64()).unwrap_or(0);
     let ty = c["type"].as_str().unwrap();
     let (src_obj, _) = build(ty, &c["sh"], seed ^ id);
